@@ -1,5 +1,5 @@
 /-
-  Model/EventTimeWindow.lean — `EventTimeWindowManager` (src/operator/window/descr/event_time.rs:7-108).
+  Model/EventTimeWindow.lean — `EventTimeWindowManager` (src/operator/window/descr/event_time.rs:7-117, after the fixes of F2 and F3).
 
   The accumulator is the *free* accumulator: a slot holds the list of the elements it was given
   (`WindowAccumulator::process` appends, `output` returns the list), each together with the
@@ -7,7 +7,7 @@
   timestamp is kept so that the interval property can be stated).
 
   `Timestamp = i64` is `Int` (no overflow, DESIGN.md §3). `size > 0`, `slide > 0` are asserted by
-  `EventTimeWindow::sliding/tumbling` (event_time.rs:119-129).
+  `EventTimeWindow::sliding/tumbling` (event_time.rs:127-137).
 -/
 import NoirVerif.Model.WindowOp
 namespace Noir.EventTimeWindow
@@ -21,7 +21,7 @@ structure Cfg where
   slide : Int
   deriving Repr, DecidableEq
 
-/-- `Slot<A>` (event_time.rs:39): accumulator (free: the items with their timestamps),
+/-- `Slot<A>` (event_time.rs:47): accumulator (free: the items with their timestamps),
     `start`, `end` (here `stop`), `active`. -/
 structure Slot (α : Type) where
   start : Int
@@ -30,10 +30,10 @@ structure Slot (α : Type) where
   active : Bool
   deriving Repr, DecidableEq
 
-/-- `Slot::new` (event_time.rs:48) -/
+/-- `Slot::new` (event_time.rs:56) -/
 def Slot.new (start stop : Int) : Slot α := ⟨start, stop, [], false⟩
 
-/-- `w.acc.process(item.clone()); w.active = true` (event_time.rs:77-78) -/
+/-- `w.acc.process(item.clone()); w.active = true` (event_time.rs:85-86) -/
 def Slot.update (s : Slot α) (x : α) (t : Int) : Slot α :=
   { s with items := s.items ++ [(x, t)], active := true }
 
@@ -48,13 +48,13 @@ def State.init : State α := ⟨none, []⟩
 /-- what a result carries: the accumulated items -/
 abbrev Res (α : Type) := WResult (List (α × Int))
 
-/-- loop condition of `alloc_windows`: `self.ws.back().map(|b| b.start < ts).unwrap_or(true)` (event_time.rs:21) -/
+/-- condition of the forward loop of `alloc_windows`: `self.ws.back().map(|b| b.start < ts).unwrap_or(true)` (event_time.rs:29) -/
 def needMore (t : Int) (ws : List (Slot α)) : Bool :=
   match ws.getLast? with
   | some b => decide (b.start < t)
   | none => true
 
-/-- start of the slot pushed by one iteration of the loop (event_time.rs:22-26):
+/-- start of the slot pushed by one iteration of the forward loop (event_time.rs:30-34):
     `back.start + slide` (or `ts` when there is no slot), moved forward by whole slides up to the
     last watermark ("skip empty windows"). `/` on a non-negative numerator and positive `slide`
     is the same for Rust's truncating and Lean's Euclidean division. -/
@@ -66,7 +66,7 @@ def nextStart (c : Cfg) (lw : Option Int) (t : Int) (ws : List (Slot α)) : Int 
   | some w => ns + (max (w - ns) 0) / c.slide * c.slide
   | none => ns
 
-/-- the `while` loop of `alloc_windows` (event_time.rs:21-34), with fuel. -/
+/-- the second (forward) `while` loop of `alloc_windows` (event_time.rs:29-42), with fuel. -/
 def allocLoop (c : Cfg) (lw : Option Int) (t : Int) : Nat → List (Slot α) → List (Slot α)
   | 0, ws => ws       -- out of fuel: unreachable for `slide > 0` with the fuel given by `alloc` (`alloc_back`)
   | fuel + 1, ws =>
@@ -75,39 +75,63 @@ def allocLoop (c : Cfg) (lw : Option Int) (t : Int) : Nat → List (Slot α) →
       allocLoop c lw t fuel (ws ++ [Slot.new ns (ns + c.size)])
     else ws
 
-/-- `alloc_windows` (event_time.rs:18-35). The `assert!` of line 19 (`ts >= last_watermark`) is
-    `panics` below. Every iteration moves `back.start` forward by at least `slide ≥ 1`, so
-    `ts - back.start + 1` iterations are enough (one when there is no slot). -/
+/-- the first `while` loop of `alloc_windows` (event_time.rs:21-27: comment + loop at 23-27, added by the fix of F2):
+    `while ws.front().map(|f| f.start > ts).unwrap_or(false) { push_front(Slot::new(front.start - slide, …)) }`
+    — windows are also allocated *backwards*, so that an element that is not late but earlier than
+    the oldest open window finds a slot. With fuel. (Before the fix this loop did not exist: slots
+    were anchored at the first timestamp and only ever allocated forward, and such an element was
+    silently dropped.) -/
+def allocBack (c : Cfg) (t : Int) : Nat → List (Slot α) → List (Slot α)
+  | 0, ws => ws       -- out of fuel: unreachable for `slide > 0` with the fuel given by `alloc` (`allocBack_front`)
+  | fuel + 1, ws =>
+    match ws with
+    | [] => []
+    | f :: rest =>
+      if f.start > t then
+        allocBack c t fuel (Slot.new (f.start - c.slide) (f.start - c.slide + c.size) :: f :: rest)
+      else f :: rest
+
+/-- `alloc_windows` (event_time.rs:18-44). The `assert!` of line 19 (`ts >= last_watermark`) is
+    `panics` below. Backward loop: every iteration moves `front.start` back by `slide ≥ 1`, so
+    `front.start - ts` iterations are enough. Forward loop: every iteration moves `back.start`
+    forward by at least `slide ≥ 1`, so `ts - back.start + 1` iterations are enough (one when
+    there is no slot). -/
 def alloc (c : Cfg) (lw : Option Int) (t : Int) (ws : List (Slot α)) : List (Slot α) :=
-  let fuel := match ws.getLast? with
+  let fuelB := match ws.head? with
+    | some f => (f.start - t).toNat
+    | none => 0
+  let ws1 := allocBack c t fuelB ws
+  let fuel := match ws1.getLast? with
     | some b => (t - b.start).toNat + 1
     | none => 1
-  allocLoop c lw t fuel ws
+  allocLoop c lw t fuel ws1
 
-/-- `.take_while(|w| w.start <= ts).for_each(update)` (event_time.rs:75-79) -/
+/-- `.take_while(|w| w.start <= ts).for_each(update)` (event_time.rs:83-87) -/
 def assignTake (x : α) (t : Int) : List (Slot α) → List (Slot α)
   | [] => []
   | s :: rest => if s.start ≤ t then s.update x t :: assignTake x t rest else s :: rest
 
-/-- `ws.iter_mut().skip_while(|w| w.end <= ts).take_while(..).for_each(..)` (event_time.rs:72-79) -/
+/-- `ws.iter_mut().skip_while(|w| w.end <= ts).take_while(..).for_each(..)` (event_time.rs:80-87) -/
 def assign (x : α) (t : Int) : List (Slot α) → List (Slot α)
   | [] => []
   | s :: rest => if s.stop ≤ t then s :: assign x t rest else assignTake x t (s :: rest)
 
-/-- `.filter(|w| w.active).map(|w| WindowResult::Timestamped(w.acc.output(), w.end))` (event_time.rs:88-89, 95-96) -/
+/-- `.filter(|w| w.active).map(|w| WindowResult::Timestamped(w.acc.output(), w.end))` (event_time.rs:96-97, 103-104) -/
 def emit (ws : List (Slot α)) : List (Res α) :=
   (ws.filter (·.active)).map fun s => ⟨s.items, some s.stop⟩
 
-/-- `WindowManager::process` (event_time.rs:68-103). `partition_point(|w| w.end < ts)` is a binary
+/-- `WindowManager::process` (event_time.rs:76-112). `partition_point(|w| w.end <= ts)` is a binary
     search; on a deque whose `end`s are increasing (invariant `Sorted`, Lemmas/EventTimeWindow.lean)
-    it is the length of the longest prefix with `end < ts`. -/
+    it is the length of the longest prefix with `end <= ts`. (Before the fix of F3 the predicate
+    was `w.end < ts`: a window stamped `end` was emitted only after `Watermark(end)` had been
+    forwarded.) -/
 def process (c : Cfg) (st : State α) : Elem α → State α × List (Res α)
   | .ts x t => ({ st with ws := assign x t (alloc c st.lw t st.ws) }, [])
-  | .wm w => (⟨some w, st.ws.dropWhile (fun s => decide (s.stop < w))⟩,
-              emit (st.ws.takeWhile (fun s => decide (s.stop < w))))
+  | .wm w => (⟨some w, st.ws.dropWhile (fun s => decide (s.stop ≤ w))⟩,
+              emit (st.ws.takeWhile (fun s => decide (s.stop ≤ w))))
   | .far => ({ st with ws := [] }, emit st.ws)      -- NB: `last_watermark` is kept
   | .term => ({ st with ws := [] }, emit st.ws)
-  | .item _ => (st, [])                             -- panics (event_time.rs:98-100)
+  | .item _ => (st, [])                             -- panics (event_time.rs:107-109)
   | .flushBatch => (st, [])
 
 /-- panic classes (as printed by the harness): the `assert!` of `alloc_windows` and the `Item` branch -/
@@ -118,7 +142,7 @@ def panics (st : State α) : Elem α → Option String
   | .item _ => some "other:event_time_windows_can_only_handle_times"
   | _ => none
 
-/-- `recycle` (event_time.rs:105-107) -/
+/-- `recycle` (event_time.rs:113-115) -/
 def recycle (st : State α) : Bool := st.ws.isEmpty
 
 /-- the manager as seen by `WindowOperator` -/
